@@ -21,7 +21,12 @@ class AnalysisError(Exception):
 
 class Unrecognised(AnalysisError):
     """A construct inside an existing anchor has a shape the rule does not model: the rule gives no verdict
-    for it (reported as undecided), it is neither a pass nor an alarm."""
+    for it (reported as undecided), it is neither a pass nor an alarm.  `partial`: the obligations the rule had
+    decided before it met the construct - they stand (a violation found earlier is still a violation)."""
+
+    def __init__(self, *args, partial=()):
+        AnalysisError.__init__(self, *args)
+        self.partial = list(partial)
 
 
 # --------------------------------------------------------------------------- program model
